@@ -8,6 +8,7 @@ from ..util import KIND, MODEL_NAMES, build
 
 PROPERTY = "C08"
 PYTEST_PREFIX = "C08/"
+TECHNIQUE = "runtime monitoring: contract monitor (escaping exceptions, finiteness) over the full numeric box + sys.monitoring RAISE tap"
 LEVEL = "exploration"
 RULE = ("Contract on the four public operations over the full stated box: 2-8 teams x 1-16 players, mu in +-20beta incl. "
         "all-corner games (largest exponents), sigma in [1e-4beta, 10beta] and sigma=0 when tau>=1e-8beta, every outcome "
